@@ -57,6 +57,9 @@ def main():
     b7 = json.load(open(V + "/selftest/benign7/index.json"))
     for name, checks in sorted(b7.items()):
         jobs.append(("benign7 " + name, "%s/selftest/benign7/%s.diff" % (V, name), checks, False))
+    b8 = json.load(open(V + "/selftest/benign8/index.json"))
+    for name, checks in sorted(b8.items()):
+        jobs.append(("benign8 " + name, "%s/selftest/benign8/%s.diff" % (V, name), checks, False))
     for fn in sorted(os.listdir(V + "/selftest/mutants")):
         name = fn[:-5]
         if name in BENIGN:
